@@ -3,6 +3,7 @@
 package dv
 
 import (
+	"github.com/named-data/ndnd/dv/config"
 	"github.com/named-data/ndnd/dv/table"
 	"github.com/named-data/ndnd/dv/tlv"
 	enc "github.com/named-data/ndnd/std/encoding"
@@ -85,3 +86,8 @@ func (dv *Router) Vf18StoreAdvert(name enc.Name, advert *tlv.Advertisement) *tab
 // Vf18RibUpdateNs is the second half: the ribUpdate started by advertDataHandler, run (possibly late) on the state
 // object it was started with.
 func (dv *Router) Vf18RibUpdateNs(ns *table.NeighborState) { dv.ribUpdate(ns) }
+
+// Vf18Consts returns the package-level constants the C18 model depends on, as the compiler evaluates them.
+func Vf18Consts() map[string]uint64 {
+	return map[string]uint64{"CostInfinity": config.CostInfinity}
+}
